@@ -25,6 +25,7 @@ WORLDS = {
     'space4x3x2': ('space', [4, 3, 2]),
     'disc4x3x2': ('discrete', [4, 3, 2]),
     'grid4x3': ('grid', [4, 3]),
+    'sorted4x3x0': ('sorted', [4, 3, 0]),      # a user world that iterates its agents in its own order
 }
 
 META = {
@@ -44,7 +45,16 @@ META = {
 }
 
 
+class SortedWorld(Envs.SpaceWorld):
+    """A user world whose iteration order is its own business (reverse alphabetical, and it skips nobody)."""
+
+    def __iter__(self):
+        return iter(sorted(self.agents.values(), key=lambda a: str(a.id), reverse=True))
+
+
 def mk(model, kind, dims, wrap):
+    if kind == 'sorted':
+        return SortedWorld(model, *dims, wrap_env=wrap)
     if kind == 'space':
         return Envs.SpaceWorld(model, *dims, wrap_env=wrap)
     if kind == 'discrete':
@@ -433,7 +443,7 @@ class Population:
     def __init__(self, world, wrap):
         self.world, self.wrap = world, wrap
         self.kind, self.dims = WORLDS[world]
-        self.cont = self.kind == 'space'
+        self.cont = self.kind in ('space', 'sorted')
         self.d3 = list(self.dims) + [0] * (3 - len(self.dims))
         self.nargs = 2 if self.kind == 'grid' else 3
         self.config = {'world': world, 'wrap': wrap}
@@ -477,6 +487,7 @@ class Population:
                 # coordinates are written directly
                 ops += [['newpc', k, s] for s in self.spots[1:3]]
                 ops += [['edit', k, self.spots[3]]]
+                ops.append(['register', k])      # the user registers the position component with the model's pools
                 ops.append(['remove', k])
             else:
                 ops += [['add', k, s] for s in self.spots]
@@ -511,6 +522,11 @@ class Population:
         elif op[0] == 'edit':
             pc = a[PC]
             pc.x, pc.y, pc.z = op[2]
+        elif op[0] == 'register':
+            try:
+                w.model.systems.register_component(a[PC])
+            except KeyError:
+                pass        # registered already
         else:
             w.env.remove_agent(op[1])
             w.order.remove(op[1])
@@ -588,7 +604,7 @@ def run(ctx):
     ctx.sample(cases[0])
     if ctx.violations or ctx.small:
         return
-    pops = [('space4x3x0', False), ('space4x3x0', True)]
+    pops = [('space4x3x0', False), ('space4x3x0', True), ('sorted4x3x0', False)]
     if full:
         pops += [('grid4x3', True), ('disc4x3x2', False), ('space4x3x2', True), ('grid4x3', False)]
     depth = 3 if not full else 4
